@@ -42,14 +42,17 @@ SPEC = dict(
     ),
     bound=dict(
         quick=(
-            "all {-1,0,1} matrices of shapes <= 2x3, 3x1, 3x2 (every B_n orbit completely; Givens/Householder/zero-column "
-            "insertion on every matrix) for the fast aggregators; MGDA and CAGrad (4-11 ms per call) only on the orbits / "
-            "matrices of the structural sublist (lexicographically smallest member of each class under row permutation, "
-            "column permutation and column sign flips); 3x3: structural sublist, fast aggregators; D(seed) shapes "
-            "3x3,4x3,5x3,2x4,3x4,4x4 with every Q in B_3 resp. S_4"
+            "every B_n orbit of the {-1,0,1} matrices of shapes <= 2x3, 3x1, 3x2 completely (all members x all Q in B_n, n <= 3) for the "
+            "13 fast aggregator classes; Givens / Householder / zero-column insertion (1 or 2 columns, every position) on the B_n-orbit "
+            "representatives; MGDA and CAGrad (4-11 ms per call) on the orbits / members of the structural sublist (smallest member of "
+            "each class under row permutation, column permutation and column sign flips; exhaustive:false for these two in this tier); "
+            "3x3: structural sublist (136 classes, their full B_3 orbits), fast aggregators; D(seed) and dense2(seed), 2 matrices each, "
+            "shapes 3x3,4x3,5x3 (every Q in B_3) and 2x4,3x4,4x4 (every permutation in S_4)"
         ),
         thorough=(
-            "all {-1,0,1} matrices up to 3x3 and 2x4 (S_4) for all aggregators; D(seed) shapes m in 2..5, n in 2..4"
+            "all 21 297 {-1,0,1} matrices up to 3x3: every B_n orbit completely and Givens / Householder / zero-column insertion on every "
+            "matrix, all aggregators (two-column insertion of MGDA / CAGrad on 3x3: on the 560 B_3-orbit representatives); all 6 561 2x4 "
+            "matrices under S_4; D(seed) and dense2(seed), 8 matrices each, m in 2..5, n in 2..4"
         ),
     ),
     assumptions=[
@@ -65,6 +68,8 @@ SPEC = dict(
         "and MGDA is compared with the tight tolerance only when its Frank-Wolfe trajectory has no argmin tie (margin >= 1e-9); on a "
         "tie, rounding decides the vertex, so only the bound both results satisfy w.r.t. the min-norm point is asserted: "
         "|x-x'| <= 2 s sqrt(max(8 epsilon, 16/(max_iters+2)))",
+        "MGDA and CAGrad additionally on diag(1, 1.37, 0.61) J for the structural sublist (generic row scaling removes most argmin ties, so that "
+        "the tight MGDA oracle is exercised under Givens / Householder)",
         "tolerances: 1e-9 * sigma_max(J) * max(1, |weights|_inf); CAGrad 1e-4 (Clarabel stops at a 1e-8 duality gap; the objective "
         "g0.g + c|g0||g| has curvature c|g0|/|g| only, so the direction g_w/|g_w| the output depends on is determined to about "
         "sqrt(1e-8) = 1e-4; observed worst 4e-6); x = w @ J: 1e-12 * s * |w| * m",
@@ -87,6 +92,7 @@ LEAK = [0.0, 0.5, 1.0, 0.25, 0.75]
 RANDZ = [-2.0, 0.0, 3.0, 1.0, -1.0]
 U1 = [0.25, 0.5, 0.999, 0.0]
 U2 = [0.75, 0.0, 0.5, 0.25]
+ROWSCALE = [1.0, 1.37, 0.61]
 
 
 # ----------------------------------------------------------------------------- alphabets / orbits
@@ -150,6 +156,9 @@ def gen_cases(tier, seed):
             else:
                 for lo in range(0, N, 12):
                     cases.append(dict(kind="direct", m=m, n=n, idx=list(range(lo, min(N, lo + 12))), aggs="all", seed=seed))
+            if m >= 2:
+                for blk in _blocks(canon, 3):
+                    cases.append(dict(kind="direct", m=m, n=n, idx=blk, aggs="slow", seed=seed, rowscale=True))
         else:
             for blk in _blocks(reps, max(1, 64 // gsize)):
                 cases.append(dict(kind="orbit", m=m, n=n, reps=blk, aggs="fast", seed=seed))
@@ -159,6 +168,8 @@ def gen_cases(tier, seed):
                 cases.append(dict(kind="direct", m=m, n=n, idx=blk, aggs="fast", seed=seed))
             for blk in _blocks(canon, 3):
                 cases.append(dict(kind="direct", m=m, n=n, idx=blk, aggs="slow", seed=seed))
+                if m >= 2:  # generic row scaling: MGDA trajectories without argmin ties under the inexact transformations
+                    cases.append(dict(kind="direct", m=m, n=n, idx=blk, aggs="slow", seed=seed, rowscale=True))
     if not thorough:
         canon33 = orbit_reps(3, 3, rows=True)
         for blk in _blocks(canon33, 2):
@@ -285,6 +296,8 @@ def compare_transformed(ctx, cfg, pred, J, base, got, expect, tname, exact, move
         tol, oracle, sig = MGDA_LOOSE * s, f"{kind}:MGDA(argmin tie, loose bound)", f"{kind}:MGDA-tie"
     else:
         tol, oracle, sig = TOL_BY_AGG.get(name, TOL) * s * wsc, f"{kind}:{lab}", f"{kind}:{name}"
+        if name == "MGDA":
+            ctx.count("mgda-tight-comparisons(inexact T)")
     if moved and bool(np.any(x != 0)):
         ctx.nontrivial += 1
     ctx.compare(oracle, err, tol, sig,
@@ -468,8 +481,10 @@ def run_case(case):
         canon = None
         for idx in case["idx"]:
             J = A.ternary_index(m, n, idx)
+            if case.get("rowscale"):
+                J = J * np.array(ROWSCALE[:m])[:, None]
             run_direct(J, cfgs, ctx, with_group=False, thin=case.get("thin"), only=case.get("only"))
-            if case["aggs"] in ("slow", "all") and (m, n) in ((2, 2), (2, 3)) and not case.get("only"):
+            if case["aggs"] in ("slow", "all") and (m, n) in ((2, 2), (2, 3)) and not case.get("only") and not case.get("rowscale"):
                 if canon is None:
                     canon = set(orbit_reps(m, n, rows=True))
                 if idx in canon:
